@@ -855,7 +855,11 @@ func (decWorld) Exec(prop string, t *Trace) *Result {
 			if journal {
 				fmt.Fprintf(os.Stderr, "AT %d\n", i)
 			}
-			for n := 0; n < 700; n++ {
+			var fm0, fm1 runtime.MemStats
+			runtime.GC()
+			runtime.ReadMemStats(&fm0)
+			const floodDocs = 2000
+			for n := 0; n < floodDocs; n++ {
 				if journal && n%64 == 63 {
 					fmt.Fprintf(os.Stderr, "AT %d\n", i)
 				}
@@ -888,8 +892,21 @@ func (decWorld) Exec(prop string, t *Trace) *Result {
 					nontrivial++
 				}
 			}
-			res.Faults["byz.members"] += 700
-			res.Probes["floodsweep_documents"] += 700
+			// What is still live after the flood (one collection later) must not have grown with
+			// the number of documents decoded: a decoder that keeps earlier inputs around uses memory
+			// proportional to everything it has ever seen, not to its input.
+			runtime.GC()
+			runtime.ReadMemStats(&fm1)
+			grown := 0
+			if fm1.HeapAlloc > fm0.HeapAlloc {
+				grown = int(fm1.HeapAlloc - fm0.HeapAlloc)
+			}
+			res.Probes["max_heap_growth_after_flood"] = grown
+			if prop == "C06" && grown > 4<<20 {
+				res.violate("C06", "memory-retained-across-calls", "", i, "after decoding %d small %s documents (about %d bytes each) and a garbage collection, the live heap is %d bytes larger than before: decoding retains memory in proportion to the inputs it has seen", floodDocs, s.kind, len(s.cur)+400, grown)
+			}
+			res.Faults["byz.members"] += floodDocs
+			res.Probes["floodsweep_documents"] += floodDocs
 			shape += "floodsweep" + s.kind
 		case "headsweep":
 			s := slots[op.T]
